@@ -73,7 +73,9 @@ def obsAnsJ : ObsAns → Json
   | .err e => errJ e
   | .occ a => occJ a
   | .st a => stJ a
-  | .hist h s c p => Json.mkObj [("h", natsJ h), ("s", natsJ s), ("c", natsJ c), ("p", natsJ p)]
+  | .hist h s c p =>
+    Json.mkObj [("h", Json.arr (h.map fun e => Json.arr #[natJ e.base, natsJ e.moves]).toArray), ("s", natsJ s), ("c", natsJ c),
+                ("p", natsJ p)]
 
 def lanOf (j : Json) : P Lan := do
   let geo ← getNat j "geo"
